@@ -205,7 +205,13 @@ func (p *IdP) Handler() http.Handler {
 			body = *p.RawJWKS
 		}
 		p.mu.Unlock()
-		if f := p.w.faultAt("idp.jwks"); f != "" || fail {
+		f := p.w.faultAt("idp.jwks")
+		if f == "ctx-cancel" {
+			// the caller of the check that triggered this key fetch gives up while it is in flight
+			f = ""
+			p.w.cancelActive(t)
+		}
+		if f != "" || fail {
 			p.w.countFault("jwks-http-" + orStr(f, "500"))
 			http.Error(w, "boom", 500)
 			return
@@ -220,6 +226,23 @@ func (p *IdP) Handler() http.Handler {
 		p.mu.Lock()
 		p.DiscHits++
 		p.mu.Unlock()
+		switch f := p.w.faultAt("idp.disc"); f {
+		case "":
+		case "ctx-cancel":
+			p.w.cancelActive(t)
+		case "garbage":
+			p.w.countFault("discovery-garbage")
+			w.Header().Set("Content-Type", "application/json")
+			_, _ = io.WriteString(w, "{\"issuer\": <<<")
+			return
+		case "reset":
+			p.w.countFault("discovery-reset")
+			panic(http.ErrAbortHandler)
+		default:
+			p.w.countFault("discovery-http-500")
+			http.Error(w, "boom", 500)
+			return
+		}
 		doc := map[string]any{
 			"issuer":                   p.base(),
 			"authorization_endpoint":   p.AuthorizeURL(),
@@ -501,13 +524,7 @@ func (p *IdP) handleToken(w http.ResponseWriter, r *http.Request) {
 		// Envoy gives up on the check while the provider is serving its token request; the provider itself
 		// answers normally
 		fault = ""
-		p.w.mu.Lock()
-		c := p.w.active[tr.Task]
-		p.w.mu.Unlock()
-		if c != nil {
-			c.Faults = c.Faults[:len(c.Faults)-1]
-			c.cancelNow(p.w)
-		}
+		p.w.cancelActive(task)
 	}
 	tr.Fault = fault
 	if fault != "" {
